@@ -1068,6 +1068,34 @@ func (x *Exec) loop(s ast.Stmt, st *State, cx *Ctx, k func(*State)) {
 		for _, a := range autos {
 			h.assume(x.originHolds(h, a.val))
 		}
+		// a counted loop "for id := start; id < bound; id++" whose body assigns neither id nor
+		// anything the bound is made of: at the head id <= bound, or nothing was iterated
+		// (id == start). Checked at the back edge like the other automatic invariants.
+		counterInv := func(s2 *State) string { return "true" }
+		if forS != nil && counter != nil && x.countedAndBounded(forS, counter) {
+			if be, ok := ast.Unparen(forS.Cond).(*ast.BinaryExpr); ok {
+				counterInv = func(s2 *State) string {
+					cv, ok := s2.vars[counter]
+					if !ok {
+						return "true"
+					}
+					x.mute = true
+					n0 := len(x.errs)
+					b := x.eval(s2.fork(), be.Y)
+					x.mute = false
+					if len(x.errs) > n0 || b.S != "Int" {
+						x.errs = x.errs[:n0]
+						return "true"
+					}
+					lim := b.T
+					if be.Op == token.LEQ {
+						lim = app("+", b.T, "1")
+					}
+					return or(app("<=", cv.T, lim), app("=", cv.T, counterStart))
+				}
+				h.assume(counterInv(h))
+			}
+		}
 		if len(invs) == 0 && len(autos) == 0 {
 			h.weak = true
 		}
@@ -1203,6 +1231,9 @@ func (x *Exec) loop(s ast.Stmt, st *State, cx *Ctx, k func(*State)) {
 			checkInvs(st, hid2, "inv-preserved")
 			for _, a := range autos {
 				x.oblige(st, "invariant", fmt.Sprintf("loop[%d]:auto-preserved:%s", ord, a.obj.Name()), []string{"*"}, x.originHolds(st, a.val))
+			}
+			if ci := counterInv(st); ci != "true" {
+				x.oblige(st, "invariant", fmt.Sprintf("loop[%d]:auto-preserved:counter-within-bound", ord), []string{"*"}, ci)
 			}
 			x.paths++
 		}
